@@ -309,7 +309,7 @@ def c16_extra(Job, tier):
 
 # ---- C17 extra: Opus volume extents ----------------------------------------------------------------------------
 OPUS_GROUP = ["VolumeLocation_set_next_sector", "VolumeLocation_len", "VolumeLocation_start_sector", "opus_volume_extents",
-              "sector_count", "Geometry_total_sectors", "safe_unsigned_multiply_u", "VolumeLocation_ctor", "opus_ctor_head", "opus_volume_table"]
+              "sector_count", "Geometry_total_sectors", "safe_unsigned_multiply_u", "VolumeLocation_ctor", "opus_ctor_head", "opus_volume_table", "opus_disc_map_sectors"]
 
 
 def opus_jobs(Job, cfg=CFG_NDEBUG, tier="quick"):
@@ -321,7 +321,8 @@ def opus_jobs(Job, cfg=CFG_NDEBUG, tier="quick"):
             J("opus_volume_extents", "h_extents", ["opus_volume_extents"], replace=["VolumeLocation_set_next_sector", "VolumeLocation_start_sector"], loops=True, solver="portfolio"),
             J("volume_location_ctor", "h_vl_ctor", ["VolumeLocation_ctor"]),
             J("opus_ctor_head", "h_ctor_head", ["opus_ctor_head"], replace=["Geometry_total_sectors"]),
-            J("opus_volume_table", "h_table", ["opus_volume_table"], loops=True, solver="portfolio")]
+            J("opus_volume_table", "h_table", ["opus_volume_table"], loops=True, solver="portfolio"),
+            J("opus_disc_map_sectors", "h_disc_map", ["opus_disc_map_sectors"])]
 
 
 def c17_extra(Job, tier):
@@ -346,7 +347,7 @@ def listtype_jobs(Job, cfg=CFG_NDEBUG, tier="quick"):
 
 
 def c01_extra(Job, tier):
-    return render_jobs(Job) + listtype_jobs(Job) + [j for j in names_jobs(Job) if "has_name" in j.name] + bodycmd_jobs(Job) + fsp_jobs(Job)
+    return render_jobs(Job) + listtype_jobs(Job) + [j for j in names_jobs(Job) if "has_name" in j.name] + bodycmd_jobs(Job) + fsp_jobs(Job) + catfind_jobs(Job)
 
 
 # ---- C02 extra: the info line ------------------------------------------------------------------------------------
@@ -359,7 +360,7 @@ def c02_extra(Job, tier):
     cfg = CFG_NDEBUG
     return [Job("D_info_line_%s" % cfg[0], "harness/dfs_info.c", "h_info_line", enforce=["info_line"], defines=list(cfg[1]),
                 extract=ext(INFO_GROUP), tier="quick", solver="portfolio",
-                cbmc=["--unwindset", "CatalogEntry_name.0:8", "--unwinding-assertions"])] + catsort_jobs(Job) + fragment_jobs(Job) + inf_jobs(Job)
+                cbmc=["--unwindset", "CatalogEntry_name.0:8", "--unwinding-assertions"])] + catsort_jobs(Job) + fragment_jobs(Job) + inf_jobs(Job) + titlecycle_jobs(Job)
 
 
 # ---- write_span of extract-unused (C11 dfs half, C14) ---------------------------------------------------------------
@@ -373,7 +374,7 @@ def c11_jobs(Job, tier):            # noqa: F811  (replaces the placeholder abov
 
 
 def c14_extra(Job, tier):
-    return write_span_jobs(Job) + space_jobs(Job) + spans_jobs(Job) + [j for j in fragment_jobs(Job) if "ctor" in j.name] + [j for j in volctor_jobs(Job) if "origin" in j.name or "map_sectors" in j.name] + sectormap_jobs(Job)
+    return write_span_jobs(Job) + space_jobs(Job) + spans_jobs(Job) + [j for j in fragment_jobs(Job) if "ctor" in j.name] + [j for j in volctor_jobs(Job) if "origin" in j.name or "map_sectors" in j.name] + sectormap_jobs(Job) + [j for j in opus_jobs(Job) if "disc_map" in j.name]
 
 
 # ---- check_track_is_supported (C06 iii, C07) -------------------------------------------------------------------------
@@ -387,7 +388,7 @@ def c06_extra(Job, tier):
 
 
 def c07_extra(Job, tier):
-    return trackcheck_jobs(Job) + mmb_jobs(Job) + write_span_jobs(Job) + selector_jobs(Job) + [j for j in names_jobs(Job) if "less" in j.name] + [j for j in space_jobs(Job) if "start_sec" in j.name] + hfegeom_jobs(Job) + showtitles_jobs(Job) + [j for j in catsort_jobs(Job) if "compare" in j.name] + [j for j in adapter_jobs(Job) if "read_block" in j.name] + [j for j in fragment_jobs(Job) if "valid_" in j.name] + [j for j in gz_jobs(Job) if "inflate_loop" in j.name] + [j for j in opus_jobs(Job) if "opus_ctor_head" in j.name or "opus_volume_table" in j.name or "location_ctor" in j.name] + [j for j in hfelut_jobs(Job) if "read_track" in j.name or "decode_header" in j.name]
+    return trackcheck_jobs(Job) + mmb_jobs(Job) + write_span_jobs(Job) + selector_jobs(Job) + [j for j in names_jobs(Job) if "less" in j.name] + [j for j in space_jobs(Job) if "start_sec" in j.name] + hfegeom_jobs(Job) + showtitles_jobs(Job) + osread_jobs(Job) + [j for j in catsort_jobs(Job) if "compare" in j.name] + [j for j in adapter_jobs(Job) if "read_block" in j.name] + [j for j in fragment_jobs(Job) if "valid_" in j.name] + [j for j in gz_jobs(Job) if "inflate_loop" in j.name] + [j for j in opus_jobs(Job) if "opus_ctor_head" in j.name or "opus_volume_table" in j.name or "location_ctor" in j.name] + [j for j in hfelut_jobs(Job) if "read_track" in j.name or "decode_header" in j.name]
 
 
 # ---- destination directory / make_name (C12) ---------------------------------------------------------------------------
@@ -430,7 +431,7 @@ def gz_jobs(Job, cfg=CFG_NDEBUG, tier="quick"):
             Job("D_check_zlib_error_code_%s" % cfg[0], "harness/dfs_gz.c", "h_check_zlib", enforce=["check_zlib_error_code"],
                 defines=list(cfg[1]), extract=ext(g), tier=tier),
             Job("D_gz_inflate_loop_%s" % cfg[0], "harness/dfs_gz.c", "h_gz_loop", enforce=["gz_inflate_loop"], replace=["check_zlib_error_code"],
-                loops=True, defines=list(cfg[1]), extract=ext(g), tier=tier, cover=True, solver="portfolio")] + gzread_jobs(Job, cfg, tier) + hints_jobs(Job, cfg, tier)
+                loops=True, defines=list(cfg[1]), extract=ext(g), tier=tier, cover=True, solver="portfolio")] + gzread_jobs(Job, cfg, tier) + hints_jobs(Job, cfg, tier) + osread_jobs(Job, cfg, tier)
 
 
 # ---- flux adapters and PicTrack (C05 / C06 image-level clause) ----------------------------------------------------------
@@ -542,7 +543,7 @@ def fsp_jobs(Job, cfg=CFG_NDEBUG, tier="quick"):
 
 
 def c15_extra(Job, tier):
-    return fsp_jobs(Job) + names_jobs(Job) + prefix_jobs(Job) + mainopt_jobs(Job)[:1]
+    return fsp_jobs(Job) + names_jobs(Job) + prefix_jobs(Job) + mainopt_jobs(Job)[:1] + catfind_jobs(Job)
 
 
 def catsort_jobs(Job, cfg=CFG_NDEBUG, tier="quick"):
@@ -712,6 +713,19 @@ def showconfig_jobs(Job, cfg=CFG_NDEBUG, tier="quick"):
 def sectormap_jobs(Job, cfg=CFG_NDEBUG, tier="quick"):
     return [Job("D_get_sector_map_%s" % cfg[0], "harness/dfs_sectormap.c", "h_get_sector_map", enforce=["get_sector_map"], loops=True, defines=list(cfg[1]),
                 extract=ext(["get_sector_map"]), tier=tier)]
+
+
+def catfind_jobs(Job, cfg=CFG_NDEBUG, tier="quick"):
+    return [Job("D_catalog_find_entry_%s" % cfg[0], "harness/dfs_catfind.c", "h_catalog_find", enforce=["catalog_find_entry"], loops=True, defines=list(cfg[1]),
+                extract=ext(["catalog_find_entry"]), tier=tier)]
+
+
+def osread_jobs(Job, cfg=CFG_NDEBUG, tier="quick"):
+    return [Job("D_osfile_read_%s" % cfg[0], "harness/dfs_osread.c", "h_osfile_read", enforce=["OsFile_read"], defines=list(cfg[1]), extract=ext(["OsFile_read"]), tier=tier)]
+
+
+def titlecycle_jobs(Job, cfg=CFG_NDEBUG, tier="quick"):
+    return [Job("D_title_and_cycle_%s" % cfg[0], "harness/dfs_titlecycle.c", "h_title_and_cycle", enforce=["title_and_cycle"], defines=list(cfg[1]), extract=ext(["title_and_cycle"]), tier=tier)]
 
 
 def prefix_jobs(Job, cfg=CFG_NDEBUG, tier="quick"):
